@@ -158,19 +158,19 @@ def judge_c05(d):
 
 
 PROPS["C05"] = {
-    "lean_modules": ["P2.Props.C05", "P2.Props.C05b"],
+    "lean_modules": ["P2.Props.C05", "P2.Props.C05b", "P2.Props.C05c"],
     "audit_module": "P2.Audit.C05",
     "harness_prop": "c05",
     "profile": "release",
     "judge": judge_c05,
     "trusted_base": KERNEL_TB + [
-        "modelled, not verified: fri/verifier.rs, fri/validate_shape.rs, reduction_strategies.rs transcribed by hand (P2/Model/Fri.lean); Poseidon hasher only; batch FRI not modelled yet (partial)",
+        "modelled, not verified: fri/verifier.rs, fri/validate_shape.rs, reduction_strategies.rs transcribed by hand (P2/Model/Fri.lean); Poseidon hasher only; batch FRI: batch_fri/verifier.rs, validate_batch_fri_proof_shape, verify_batch_merkle_proof_to_cap transcribed in P2/Model/BatchFri.lean",
         "NOT proved (cryptographic idealisation): proximity soundness of the FRI query phase; the theorems cover decision logic and the algebraic identities each check relies on",
     ],
-    "level_text": "Lean 4 model of the complete FRI verifier (shape, PoW, initial Merkle openings, combination of openings, per-layer interpolation/consistency/Merkle checks, final polynomial) with theorems on its decision logic and the arity schedule; tied to verify_fri_proof by exact verdict-and-stage agreement on honest opening proofs and on a deviation catalogue with challenges held fixed",
+    "level_text": "(incl. batch FRI: BatchFri.verifyBatch with the per-layer mix-in of lower-degree groups, batch Merkle openings, shape validation; theorems: acceptance decomposition, exact mix-in rule per layer, and verifyBatch on one instance = Fri.verify when no oracle is salted) Lean 4 model of the complete FRI verifier (shape, PoW, initial Merkle openings, combination of openings, per-layer interpolation/consistency/Merkle checks, final polynomial) with theorems on its decision logic and the arity schedule; tied to verify_fri_proof by exact verdict-and-stage agreement on honest opening proofs and on a deviation catalogue with challenges held fixed",
     "level_note": "Trusted: Lean kernel, standard axioms, hand transcription tied by correspondence (exact agreement of two deterministic verifiers, no probabilistic slack). FRI proximity soundness is assumed, not proved.",
     "assumptions": ["FRI proximity soundness", "collision resistance of Poseidon appears only as an explicit disjunct in C12's theorems"],
-    "rule": "honest opening proofs for random oracle shapes (1-4 oracles, 1-6 polys, blinding), degrees 2^1..2^7 (thorough 2^9), rate 1-4, cap 0-4, Fixed/ConstantArity/MinSize strategies, 1-5 queries (thorough 12) x 17 deviation classes with challenges fixed; ConstantArityBits schedule for all small parameters; distinct = distinct request lines",
+    "rule": "batch FRI: 1-4 strictly decreasing degree groups x Fixed/ConstantArity schedules (inner / last-exact / no-reduction joins) x per-group and batch-specific deviations (shifted num_polys, swapped instances/openings/degree bits, dropped instance, wrong degree) + single-degree catalogue; honest opening proofs for random oracle shapes (1-4 oracles, 1-6 polys, blinding), degrees 2^1..2^7 (thorough 2^9), rate 1-4, cap 0-4, Fixed/ConstantArity/MinSize strategies, 1-5 queries (thorough 12) x 17 deviation classes with challenges fixed; ConstantArityBits schedule for all small parameters; distinct = distinct request lines",
 }
 
 def judge_c04(d):
